@@ -9,6 +9,12 @@ import (
 // debugAccessors prints the accessor census (development aid: `icsverif accessors`).
 func debugAccessors(P *Prog) {
 	c := &Ctx{P: P, floors: map[string]int{}, ruleDesc: map[string]string{}}
+	for _, ks := range keyCtors(c, "pt") {
+		fmt.Printf("pt-key %-45s %s\n", ks.Ctor.Name(), shapeString(ks.Shape))
+	}
+	for _, ks := range keyCtors(c, "ct") {
+		fmt.Printf("ct-key %-45s %s\n", ks.Ctor.Name(), shapeString(ks.Shape))
+	}
 	for _, pkg := range []string{"pk", "ck"} {
 		for _, f := range P.ModuleFuncs(pkg) {
 			if f.Parent() != nil || fnPkgPath(f) != q(pkg) {
